@@ -15,7 +15,8 @@ import (
 )
 
 // sserve <flags> <maxBody> <end> <stream> <cuts> <readSize> <stopAfter>
-//  -> S <n> {method uri streamed bytes eof err}  R <m> {status close body}  W <wellformed>
+//
+//	-> S <n> {method uri streamed bytes eof err}  R <m> {status close body}  W <wellformed>
 func opSServe(a []string) []string {
 	cfg := srvCfg{disableNorm: strings.Contains(a[0], "n"), disableKeepalive: strings.Contains(a[0], "k"), stream: true}
 	cfg.maxBody, _ = strconv.Atoi(a[1])
